@@ -88,7 +88,7 @@ def check_case(ctx, case):
     prof = canon.build_profile(spec)
     r0 = rng.Rng("tap", seed=case.get("seed", 0))
     with r0:
-        out = rules.run(cfg, prof)[0]
+        out = rules.run(cfg, prof, transfer_override=rules.full_weight_transfer if case.get("full_weight") else None)[0]
     if not out.ok:
         ctx.count("constructor_raised_skipped")
         return
@@ -276,6 +276,10 @@ def run(ctx):
             c["cfg"]["tiebreak"] = None if rule in rules.SCORE_RULES else ctx.rnd.choice([None, "borda", "first_place"])
         if c["cfg"].get("transfer") == "random" and ctx.rnd.random() < 0.7:
             c["cfg"]["transfer"] = "fractional"
+        if rule in ("STV", "Alaska") and c["cfg"].get("transfer") == "fractional" and i % 3 == 0:
+            # a transfer rule of the caller's own (whole weight passed on): the replay behind get_profile must use it too
+            c["full_weight"] = True
+            ctx.count("elections_with_callers_own_transfer_rule")
         c["seed"] = ctx.rnd.randrange(10 ** 6)
         c["qlen"] = ctx.rnd.randint(12, 24) if ctx.quick else ctx.rnd.randint(12, 60)
         ctx.guard("check", check_case, ctx, c)
